@@ -61,6 +61,13 @@ claim('C06', 'other',
       'momentum (p = R_N T (rho_N + rho_N2/2)) and energy (5/2, 7/4 translational-rotational, N2 vibrational, formation enthalpies); the callback is invoked exactly once, on the exact temperature term.',
       FORMULA_NOTE + ' pow(T,eta) and exp atoms opaque with axioms; admissibility T>0, rho_s>0, M_N,L,R != 0, K_eq>0.', 'symbolic execution of LLVM IR with an uninterpreted callback + SMT identity checking', 'DESIGN.md §4 C06')
 
+claim('C08', 'other',
+      'sod_1d: (a) rtbis with func UNINTERPRETED, unrolled 3 (5 thorough) bisection steps and case-split on every sign: at every return the result is the lower end of a bracket [r, r+dx] with func(r) <= 0 <= func(r+dx) and |dx| < xacc or |func(mid)| < thresh; '
+      '(b) with p_m a symbol: func == (shock-side - rarefaction-side velocity)/c_r, Rankine-Hugoniot mass and momentum jumps, every evaluator path returns the value of the wave region its conditions select with front speeds -c_l, -v_t, v_m, v_s, fronts ordered, density/velocity continuous across the fan (Gamma = 7/5; 5 rational values thorough). '
+      'cp_normal: prior/posterior == normalised normal densities with the conjugate mean/variance for data vectors of length 1..3 (6) with symbolic contents, posterior ~ likelihood*prior (exponent derivatives), loglikelihood == exponent of the likelihood, mean/variance evaluators, central moments k=0..20.',
+      FORMULA_NOTE + ' Sod states are the library\'s hard-coded (1,1) / (1/8,1/8); fractional powers are opaque atoms with v^q = base^p axioms, so the relation list is claimed for the listed rational Gamma values; bisection is bounded by the stated unrolling.',
+      'symbolic execution of LLVM IR with uninterpreted func / summarised rtbis + SMT (z3 nlsat) identities and inequalities', 'DESIGN.md §4 C08')
+
 STRUCT_NOTE = ('Contract models of std::string/map/vector/ostream (libstdc++ internals not analysed); allocation succeeds; masa_map summarised by its C13 contract inside masa_init; '
                'trusted: clang-14 lowering, irdump+Engine A, z3 for path-condition feasibility; every reported counterexample is replayed on a g++ -O0 build through the public API.')
 claim('C07', 'other',
